@@ -65,6 +65,56 @@ func setup() {
 	start := time.Now()
 	p := h.PlainBase()
 	fmt.Printf("plain base ready at %s (%.0fs)\n", p, time.Since(start).Seconds())
+	// Warm the config bases of the standard configurations for the current
+	// tree (accelerators only: they are rebuilt lazily for any other garble binary).
+	work, err := os.MkdirTemp("", "verif-setup-")
+	h.Must(err)
+	defer h.RemoveAll(work)
+	bin := h.BuildGarble(work)
+	hash := h.FileSHA(bin)[:16]
+	type job struct {
+		cfg   h.Config
+		level string
+	}
+	var jobs []job
+	seed := "AAECAwQFBgc"
+	mod := "example.com,zqmod.test,zq.example.org,zqsimple"
+	for _, c := range []h.Config{{}, {Tiny: true}, {Literals: true}, {Seed: seed}, {Literals: true, Tiny: true}, {Literals: true, Tiny: true, Seed: seed},
+		{GOGARBLE: mod}, {GOGARBLE: mod, Literals: true}, {ControlFlow: true}, {ControlFlow: true, Literals: true}, {ControlFlow: true, Seed: seed}} {
+		jobs = append(jobs, job{c, h.LevelStd})
+	}
+	jobs = append(jobs, job{h.Config{}, h.LevelTest}, job{h.Config{Literals: true, Tiny: true, Seed: seed}, h.LevelTest}, job{h.Config{Tiny: true}, h.LevelRT})
+	sem := make(chan struct{}, 4)
+	var wg sync.WaitGroup
+	var mu sync.Mutex
+	failed := 0
+	for _, j := range jobs {
+		wg.Add(1)
+		go func(j job) {
+			defer wg.Done()
+			sem <- struct{}{}
+			defer func() { <-sem }()
+			defer func() {
+				if r := recover(); r != nil {
+					mu.Lock()
+					failed++
+					fmt.Fprintf(os.Stderr, "config base %s/%s: %v\n", j.cfg.Key(), j.level, r)
+					mu.Unlock()
+				}
+			}()
+			t0 := time.Now()
+			h.ConfigBase(bin, hash, j.cfg, j.level)
+			mu.Lock()
+			fmt.Printf("config base %s/%s ready (%.0fs)\n", j.cfg.Key(), j.level, time.Since(t0).Seconds())
+			mu.Unlock()
+		}(j)
+	}
+	wg.Wait()
+	if failed > 0 {
+		// not fatal: the checks build what they need lazily
+		fmt.Printf("%d config bases could not be prebuilt; checks will build them on demand\n", failed)
+	}
+	fmt.Printf("setup done in %.0fs\n", time.Since(start).Seconds())
 }
 
 func exitOnInfra() {
